@@ -28,15 +28,17 @@ func NewRelay(ctx context.Context, in, out ITracer, transformer Transformer) {
 	ch := in.Subscribe()
 	handle := out.RegisterSender()
 	go func() {
+		ctxDone := ctx.Done()
 		for {
 			select {
 			case <-in.Done():
 				handle.Done()
 				in.Unsubscribe(ch)
 				return
-			case <-ctx.Done():
-				// wait until `in` Tracer is done
-				//return
+			case <-ctxDone:
+				// wait until `in` Tracer is done (and keep relaying meanwhile);
+				// a nil channel is never ready, so this case does not spin
+				ctxDone = nil
 			case trace, ok := <-ch:
 				if ok {
 					traces := transformer(trace)
